@@ -42,6 +42,15 @@ func (f *faultSeq) next() string {
 	return ""
 }
 
+func (f *faultSeq) peek() string {
+	f.mu.Lock()
+	defer f.mu.Unlock()
+	if f.k < len(f.faults) {
+		return f.faults[f.k]
+	}
+	return ""
+}
+
 // peekTarget waits until the header section starting at off is complete and returns the request target ("" on failure).
 func peekTarget(bc *sys.BackendConn, off int, d time.Duration) string {
 	deadline := time.Now().Add(d)
@@ -127,6 +136,16 @@ func (w *world) handler(name string) func(bc *sys.BackendConn) {
 					w.note(tgt, seenReq{Backend: name, Conn: bc, Off: off})
 					fmt.Fprintf(bc.Conn, "HTTP/1.1 200 OK\r\nContent-Length: 5\r\nX-Echo-Target: %s\r\nConnection: close\r\n\r\nearly", tgt)
 					return
+				} else if sc != nil && sc.Seq != nil && sc.Seq.peek() == "rst-on-header" {
+					// abort the connection (RST) as soon as the header section arrived, while
+					// the proxy is still streaming the request body
+					sc.Seq.next()
+					w.note(tgt, seenReq{Backend: name, Conn: bc, Off: off})
+					if tc, ok := bc.Conn.(*net.TCPConn); ok {
+						tc.SetLinger(0)
+					}
+					bc.Conn.Close()
+					return
 				}
 			}
 			m, err := bc.ReadRequest(off, 15*time.Second)
@@ -199,11 +218,20 @@ func (w *world) handler(name string) func(bc *sys.BackendConn) {
 				}
 				return
 			}
-			if m.Method == "HEAD" {
-				fmt.Fprintf(bc.Conn, "HTTP/1.1 200 OK\r\nContent-Length: %d\r\nX-Backend: %s\r\nX-Echo-Target: %s\r\n\r\n", len(body), name, m.Target)
-				continue
+			// a kept-alive connection that has carried a lot of data is retired politely, so
+			// that the recorded byte log of one connection stays bounded
+			retire := ""
+			if off > 4<<20 {
+				retire = "Connection: close\r\n"
 			}
-			fmt.Fprintf(bc.Conn, "HTTP/1.1 200 OK\r\nContent-Length: %d\r\nX-Backend: %s\r\nX-Echo-Target: %s\r\n\r\n%s", len(body), name, m.Target, body)
+			if m.Method == "HEAD" {
+				fmt.Fprintf(bc.Conn, "HTTP/1.1 200 OK\r\nContent-Length: %d\r\nX-Backend: %s\r\nX-Echo-Target: %s\r\n%s\r\n", len(body), name, m.Target, retire)
+			} else {
+				fmt.Fprintf(bc.Conn, "HTTP/1.1 200 OK\r\nContent-Length: %d\r\nX-Backend: %s\r\nX-Echo-Target: %s\r\n%s\r\n%s", len(body), name, m.Target, retire, body)
+			}
+			if retire != "" {
+				return
+			}
 		}
 	}
 }
